@@ -390,7 +390,7 @@ def handle (toks : List String) : String :=
     | none => bad
   | ["qtext", a] =>
     match parseHex a with
-    | some a => hexOfString (F64.qiblaText a.toNat)
+    | some a => F64.fmt1Abs a.toNat ++ " " ++ (if F64.rotationIsCw a.toNat then "CW" else "CCW")
     | none => bad
   | ["f64cmp", a, b] =>
     match parseHex a, parseHex b with
